@@ -176,6 +176,9 @@ _s13 = _ilu.spec_from_file_location("c13", _os.path.join(_os.path.dirname(__file
 for _u in _C13.UNITS:
     if _u["name"] in ("c13_b_create_add_d2w3", "c13_b_create_remove_d2w3", "c13_b_remove_d2w3", "c13_b_update_d2w3", "c13_b_updateAll_d2w3", "c13_b_tops_d2w3"):
         _v = copy.deepcopy(_u); _v["name"] = _v["name"].replace("c13_b_", "c11_gridb_"); UNITS.append(_v)
+# ... and the planners that own such a grid: every key change is followed by update()/updateAll() before a top is requested (KPIECE units of C13)
+for _u in _C13.KP_UNITS:
+    _v = copy.deepcopy(_u); _v["name"] = _v["name"].replace("c13_", "c11_"); UNITS.append(_v)
 
 ASSUMPTIONS = [
     "the user's comparison functor is a strict weak order (then a heap of <= N elements behaves exactly as under 8-bit rank keys)",
